@@ -76,13 +76,23 @@ def origins(fn, local, transparent=TRANSPARENT, _seen=None, follow_fields=True):
             if "use" in rv or "ref" in rv or "rawptr" in rv or "cast" in rv:
                 op = rv.get("use") or rv.get("op")
                 if "ref" in rv:
-                    l = rv["ref"]["l"]
+                    pl = rv["ref"]
                 elif "rawptr" in rv:
-                    l = rv["rawptr"]["l"]
+                    pl = rv["rawptr"]
                 else:
-                    l = op_local(op)
+                    pl = op_place(op)
+                l = pl["l"] if pl else None
                 if l is not None:
-                    res |= origins(fn, l, transparent, _seen)
+                    sub = _agg_component(fn, pl)
+                    if sub is not None:
+                        sl = op_local(sub)
+                        if sl is not None:
+                            res |= origins(fn, sl, transparent, _seen)
+                        else:
+                            k = op_const(sub)
+                            res.add(("const", k.get("str", k.get("int", k.get("fn", k.get("txt", "?")))) if k else "?"))
+                    else:
+                        res |= origins(fn, l, transparent, _seen)
                 else:
                     k = op_const(op)
                     res.add(("const", k.get("str", k.get("int", k.get("fn", k.get("txt", "?")))) if k else "?"))
@@ -91,6 +101,29 @@ def origins(fn, local, transparent=TRANSPARENT, _seen=None, follow_fields=True):
             else:
                 res.add(("other", bi, si))
     return res
+
+
+def _agg_component(fn, place):
+    """If `place` is `base.<field i>...` and `base` is defined once by a tuple
+    aggregate, return the operand stored in component i (field-sensitive step)."""
+    proj = place.get("p") or []
+    if not proj or proj[0][0] != "field":
+        return None
+    ds = defs_of(fn, place["l"])
+    if len(ds) != 1 or ds[0][0] != "assign":
+        return None
+    rv = ds[0][4]
+    if "agg" in rv and rv["agg"]["k"] == "tuple":
+        i = proj[0][1]
+        if i < len(rv["ops"]):
+            return rv["ops"][i]
+    return None
+
+
+def blocks_calling(fn, pred, start_blocks, removed_blocks=()):
+    """Calls satisfying pred reachable from start_blocks (R-DOM NoCallAfterFailure)."""
+    reach = fn.reachable(list(start_blocks), removed_blocks=removed_blocks)
+    return [c for c in fn.calls() if c.bb in reach and pred(c)]
 
 
 def origin_calls(fn, local, transparent=TRANSPARENT):
@@ -309,4 +342,85 @@ def literal_of(fn, op, depth=6):
             out += literal_of(fn, {"copy": {"l": rv["ref"]["l"]}}, depth - 1)
         elif "cast" in rv:
             out += literal_of(fn, rv["op"], depth - 1)
+    return out
+
+
+def trace_paths(fn, local, transparent=TRANSPARENT, _depth=0, _seen=None):
+    """Like origins(), but also records the field names projected on the way:
+    returns a set of (origin, (field, ...)) with fields outermost-first."""
+    if _seen is None:
+        _seen = set()
+    if local in _seen or _depth > 24:
+        return set()
+    _seen = _seen | {local}
+    out = set()
+    ds = defs_of(fn, local)
+    if 1 <= local <= fn.argc:
+        out.add((("arg", local), ()))
+    if not ds and not (1 <= local <= fn.argc):
+        return {(("undef", local), ())}
+    for d in ds:
+        if d[0] == "call":
+            c = d[4]
+            if c.matches(tuple(transparent)) and c.args and op_local(c.args[0]) is not None:
+                out |= trace_paths(fn, op_local(c.args[0]), transparent, _depth + 1, _seen)
+            else:
+                out.add((("call", c.bb), ()))
+            continue
+        rv = d[4]
+        pl = None
+        if "ref" in rv:
+            pl = rv["ref"]
+        elif "rawptr" in rv:
+            pl = rv["rawptr"]
+        elif "use" in rv:
+            pl = op_place(rv["use"])
+        elif "cast" in rv:
+            pl = op_place(rv["op"])
+        if pl is None:
+            if "agg" in rv:
+                out.add((("agg", d[1], d[2]), ()))
+            elif "use" in rv or "cast" in rv:
+                k = op_const(rv.get("use") or rv.get("op")) or {}
+                out.add((("const", k.get("str", k.get("int", k.get("fn", k.get("txt", "?"))))), ()))
+            else:
+                out.add((("other", d[1], d[2]), ()))
+            continue
+        fields = tuple(e[2] if e[0] == "field" else ("@" + e[1]) for e in (pl.get("p") or []) if e[0] in ("field", "downcast"))
+        sub = _agg_component(fn, pl)
+        if sub is not None and op_local(sub) is not None:
+            inner = trace_paths(fn, op_local(sub), transparent, _depth + 1, _seen)
+            fields = fields[1:]
+        else:
+            inner = trace_paths(fn, pl["l"], transparent, _depth + 1, _seen)
+        for (o, fs) in inner:
+            out.add((o, fs + fields))
+    return out
+
+
+def find_try_dst(fn, call):
+    """Destination local of the Try::branch that consumes `call`'s result."""
+    dl = call.dst["l"]
+    for c in fn.calls():
+        if c.matches(TRY_BRANCH) and c.args and op_local(c.args[0]) == dl:
+            return c.dst["l"]
+    return None
+
+
+def chain_locals(fn, local, depth=12):
+    """All locals on the single-definition copy/move/borrow chain ending at `local`."""
+    out = [local]
+    cur = local
+    for _ in range(depth):
+        ds = defs_of(fn, cur)
+        if len(ds) != 1 or ds[0][0] != "assign":
+            break
+        rv = ds[0][4]
+        if "ref" in rv:
+            cur = rv["ref"]["l"]
+        elif "use" in rv and op_local(rv["use"]) is not None:
+            cur = op_local(rv["use"])
+        else:
+            break
+        out.append(cur)
     return out
